@@ -75,6 +75,18 @@ func c15s(m dsl.Matcher) {
 	m.Match(` + "`probe2($x)`" + `).Suggest(` + "`$x`" + `)
 }
 
+func c15amp(m dsl.Matcher) {
+	m.Match(` + "`probe3($x)`" + `).Report(` + "`F=$x.f;`" + `)
+}
+
+func c15two(m dsl.Matcher) {
+	m.Match(` + "`probe4($x, $y, $z)`" + `).Report(` + "`A=$x;B=$y;C=$z;`" + `)
+}
+
+func c15csugg(m dsl.Matcher) {
+	m.MatchComment(` + "`//c15z:(?P<body>\\w*)`" + `).Suggest(` + "`$body`" + `)
+}
+
 func c15comment(m dsl.Matcher) {
 	m.MatchComment(` + "`//c15:(?P<body>\\w*)`" + `).Report(` + "`V=$body;W=$$;`" + `).Suggest(` + "`$body`" + `)
 }
@@ -112,7 +124,7 @@ func main() {
 
 	// engine level
 	var sb strings.Builder
-	sb.WriteString("package target\n\nfunc probe(string) {}\nfunc probe2(string) {}\n\nfunc f() {\n")
+	sb.WriteString("package target\n\nfunc probe(string) {}\nfunc probe2(string) {}\nfunc probe3(*int) {}\nfunc probe4(a, b, c string) {}\n\nfunc f() {\n")
 	const alphabet = "abcdefghijklmnopqrstuvwxyz0123456789ABCDEFGHIJKLMNOPQRSTUVWXYZ"
 	var texts []string
 	for n := 0; n <= *maxN+40; n++ {
@@ -127,6 +139,11 @@ func main() {
 		fmt.Fprintf(&sb, "\tprobe(%s)\n", lit.String())
 		fmt.Fprintf(&sb, "\t//c15:%s\n", strings.Trim(lit.String(), "\""))
 		fmt.Fprintf(&sb, "\tprobe2(%s)\n", lit.String())
+		fmt.Fprintf(&sb, "\t//c15z:%s\n", strings.Trim(lit.String(), "\""))
+		ident := "v" + strings.Trim(lit.String(), "\"")
+		fmt.Fprintf(&sb, "\tvar %s int\n\tprobe3(&%s)\n", ident, ident)
+		// three interpolations in one message: a long one first, then texts around the limit
+		fmt.Fprintf(&sb, "\tprobe4(%s, %s, %s)\n", texts[(n*7)%len(texts)], lit.String(), texts[(n*3+1)%len(texts)])
 	}
 	sb.WriteString("}\n")
 	t, err := hutil.CheckTarget(*tmp, "target/target.go", []byte(sb.String()))
@@ -159,7 +176,7 @@ func main() {
 			shared.Ctx.TruncateLen = L
 			reports, pmsg = shared.Run(e)
 		}
-		enc.Encode(engineObs{K: "count", L: L, Panic: pmsg, NRep: len(reports), Msg: fmt.Sprint(3 * len(texts))})
+		enc.Encode(engineObs{K: "count", L: L, Panic: pmsg, NRep: len(reports), Msg: fmt.Sprint(6 * len(texts))})
 		if pmsg != "" {
 			continue
 		}
@@ -167,6 +184,12 @@ func main() {
 			switch r.Group {
 			case "c15":
 				enc.Encode(engineObs{K: "engine", Text: string(t.Src[r.Pos+len("probe(") : r.End-1]), L: L, Msg: r.Message, Sugg: r.Sugg, NRep: len(reports)})
+			case "c15amp":
+				enc.Encode(engineObs{K: "amp", Text: string(t.Src[r.Pos+len("probe3(&") : r.End-1]), L: L, Msg: r.Message, Sugg: r.Sugg, NRep: len(reports)})
+			case "c15two":
+				enc.Encode(engineObs{K: "three", Text: string(t.Src[r.Pos+len("probe4(") : r.End-1]), L: L, Msg: r.Message, Sugg: r.Sugg, NRep: len(reports)})
+			case "c15csugg":
+				enc.Encode(engineObs{K: "csugg", Text: string(t.Src[r.Pos+len("//c15z:") : r.End]), L: L, Msg: r.Message, Sugg: r.Sugg, NRep: len(reports)})
 			case "c15s":
 				enc.Encode(engineObs{K: "suggonly", Text: string(t.Src[r.Pos+len("probe2(") : r.End-1]), L: L, Msg: r.Message, Sugg: r.Sugg, NRep: len(reports)})
 			default:
